@@ -118,8 +118,15 @@ func (c *gcmCase) class() string {
 	return fmt.Sprintf("pt[%s]|aad[%s]|%s|tag%d", kernelClass(len(c.pt)), ghashClass(len(c.aad)), nonceClass(len(c.nonce)), c.tag)
 }
 
+func clip(b []byte) string {
+	if len(b) > 4096 {
+		return hk.Hex(b[:4096]) + fmt.Sprintf("...(%d bytes, PRNG-determined)", len(b))
+	}
+	return hk.Hex(b)
+}
+
 func (c *gcmCase) detail() hk.D {
-	return hk.D{"key": hk.Hex(c.key), "nonce": hk.Hex(c.nonce), "aad": hk.Hex(c.aad), "pt": hk.Hex(c.pt), "tag_size": c.tag, "label": c.label,
+	return hk.D{"key": hk.Hex(c.key), "nonce": hk.Hex(c.nonce), "aad": clip(c.aad), "pt": clip(c.pt), "tag_size": c.tag, "label": c.label,
 		"lens": fmt.Sprintf("nonce=%d aad=%d pt=%d", len(c.nonce), len(c.aad), len(c.pt))}
 }
 
